@@ -257,7 +257,7 @@ Fixpoint hash_rounds (salt : bytes) (k : nat) (h : bytes) : bytes :=
   end.
 
 Definition nsec3_hash (n : name) (iterations : N) (salt : bytes) : bytes :=
-  let canonical_owner := wire_abs (canon n) in
+  let canonical_owner := wire_abs (if hash_owner_lowercased then canon n else n) in
   hash_rounds salt (N.to_nat (iterations - hash_iter_from))
     (H (if hash_salt_after_data then canonical_owner ++ salt else salt ++ canonical_owner)).
 
